@@ -579,11 +579,22 @@ func c09gen(s *sim.Sim, interp bool) c09prog {
 	if shareObj {
 		fmt.Fprintf(&b, "  $ o = {a: %d, b: %d}\n", 1+s.Choose(sim.SWork, 9), 1+s.Choose(sim.SWork, 9))
 	}
+	// ... or an object that is still empty when the blocks are spawned and is filled afterwards,
+	// by the parent and by the blocks (write-only on both sides: nobody reads a field that may
+	// not be there yet)
+	emptyObj := interp && !tagged && !shareObj && s.Choose(sim.SWork, 2) == 0
+	if emptyObj {
+		b.WriteString("  $ acc = {}\n")
+	}
 	nblocks := 1 + s.Choose(sim.SWork, 4)
 	var futs []string
 	nextParent := 0
 	parentStmt := func() {
 		// parent keeps declaring / assigning while blocks run
+		if emptyObj && s.Choose(sim.SWork, 2) == 0 {
+			fmt.Fprintf(&b, "  $ acc.p%d = %s\n", s.Choose(sim.SWork, 3), pre[s.Choose(sim.SWork, len(pre))])
+			return
+		}
 		if shareObj && s.Choose(sim.SWork, 2) == 0 {
 			// the parent assigns to a field of the shared object while blocks run
 			fmt.Fprintf(&b, "  $ o.%s = %s + %d\n", []string{"a", "b", "c"}[s.Choose(sim.SWork, 3)], pre[s.Choose(sim.SWork, len(pre))], s.Choose(sim.SWork, 9))
@@ -614,6 +625,9 @@ func c09gen(s *sim.Sim, interp bool) c09prog {
 		x := id + "_x"
 		readable := append([]string(nil), pre...)
 		fmt.Fprintf(&bb, "%s  $ %s = %s + %d\n", indent, x, readable[s.Choose(sim.SWork, len(readable))], s.Choose(sim.SWork, 7))
+		if emptyObj && s.Choose(sim.SWork, 2) == 0 {
+			fmt.Fprintf(&bb, "%s  $ acc.b%s = %s\n", indent, id, x)
+		}
 		if shareObj {
 			switch s.Choose(sim.SWork, 3) {
 			case 0: // the block reads the shared object
@@ -703,6 +717,30 @@ func c09Programs(s *sim.Sim, p *sim.Params) {
   > {route: "n", r: r}
 }
 `, 424200+base, base)
+	// blocks spawned in a loop, one per iteration, awaited after the loop: each keeps the loop
+	// variable and the body's locals of its own iteration
+	extra += `
+@ GET /loop {
+  $ fs = []
+  for x in [1, 2, 3] {
+    $ y = x * 10
+    $ f = async {
+      $ i = 0
+      while i < 3 {
+        i = i + 1
+      }
+      > y + x
+    }
+    fs = fs + [f]
+  }
+  $ total = 0
+  for g in fs {
+    $ r = await g
+    total = total + r
+  }
+  > {route: "loop", total: total}
+}
+`
 	if interp {
 		extra += fmt.Sprintf(`
 @ GET /twice {
@@ -738,6 +776,15 @@ func c09Programs(s *sim.Sim, p *sim.Params) {
 				s.Fail("oracle", "block-value:no-return", fmt.Sprintf("%s: awaiting a block that returns nothing answered %d %s; the first time (before any block had failed) it answered %d %s (interpreter=%v)", when, n.status, strings.TrimSpace(n.body), nRef.status, strings.TrimSpace(nRef.body), interp))
 			}
 		}
+		lp := sv.do(simReq{path: "/loop", remote: "10.0.0.2:1"})
+		if lp.status == 200 {
+			s.Probe("loop-spawned-blocks-checked")
+			if !strings.Contains(lp.body, `"total":66`) {
+				s.Fail("oracle", "block-value:spawned-in-loop", fmt.Sprintf("%s: three blocks spawned in a loop (each returns y + x of its own iteration: 11, 22, 33) sum to %s, want total = 66 (interpreter=%v)", when, strings.TrimSpace(lp.body), interp))
+			}
+		} else {
+			s.Probe("loop-route-not-supported-by-this-engine")
+		}
 		if interp {
 			tw := sv.do(simReq{path: "/twice", remote: "10.0.0.2:1"})
 			want := fmt.Sprintf(`"first":%d`, base+100)
@@ -749,7 +796,7 @@ func c09Programs(s *sim.Sim, p *sim.Params) {
 		s.Probe("companion-routes-checked")
 	}
 	companions("before the generated program")
-	if strings.Contains(pg.src, "$ o = {") {
+	if strings.Contains(pg.src, "$ o = {") || strings.Contains(pg.src, "$ acc = {}") {
 		s.Probe("program:shares-object")
 	}
 	if sv.compiled {
